@@ -20,7 +20,6 @@ import (
 	"fmt"
 	"io"
 	"net/http"
-	"slices"
 	"sort"
 	"strconv"
 	"strings"
@@ -169,16 +168,19 @@ func (wf *WarcFields) AddId(name, value string) {
 func (wf *WarcFields) Set(name string, value string) {
 	name, _ = normalizeName(name)
 	isSet := false
-	for idx, nv := range *wf {
+	result := (*wf)[:0]
+	for _, nv := range *wf {
 		if nv.Name == name {
 			if isSet {
-				*wf = slices.Delete(*wf, idx, idx+1)
-			} else {
-				nv.Value = value
-				isSet = true
+				continue
 			}
+			nv.Value = value
+			isSet = true
 		}
+		result = append(result, nv)
 	}
+	clear((*wf)[len(result):])
+	*wf = result
 	if !isSet {
 		*wf = append(*wf, &nameValue{Name: name, Value: value})
 	}
